@@ -291,9 +291,8 @@ func SubscribeWithReplay[T any](
 	lastOffset, _ := subStore.LoadOffset(ctx, subscriptionID)
 
 	// Replay missed events
-	var eventType = reflect.TypeOf((*T)(nil)).Elem()
-	// Use consistent type naming with EventType() function
-	typeName := eventType.String()
+	// Use the same type naming as EventType(), which honours TypeNamer
+	typeName := eventTypeName[T]()
 	err := bus.Replay(ctx, lastOffset, func(stored *StoredEvent) error {
 		// Apply upcasts if available
 		eventData, eventTypeName := stored.Data, stored.Type
